@@ -207,7 +207,11 @@ def gen_case(rng, widen=False):
         if k <= 0:
             break
         total += k
-        learns.append({"rollouts": k, "reset": rng.chance(0.5)})
+        reset = rng.chance(0.5)
+        # `set_env(env)` (force_reset) in front of a continuing learn(): the environment is reset although the counter is
+        # not, and everything carried from the previous call (last observation, episode-start flags) must restart with it
+        # (seeded change C06-h)
+        learns.append({"rollouts": k, "reset": reset, "rebind": bool(i > 0 and not reset and rng.chance(0.4))})
     # scripts
     scripts = []
     for e in range(n_envs):
@@ -580,6 +584,8 @@ def run_case(case):
     learn_marks = []
     for lc in case["learns"]:
         m0 = len(rec.events)
+        if lc.get("rebind"):
+            model.set_env(model.get_env())
         model.learn(total_timesteps=lc["rollouts"] * T * n, callback=cb, reset_num_timesteps=lc["reset"])
         learn_marks.append({"ev0": m0, "n_rollouts_after": len(cb.rollouts)})
     logs = base.env_method("get_log")
@@ -682,7 +688,7 @@ def oracle(ctx, case, r, tags, truth):
     # ---- learn() calls reset the environment exactly when they must ---------------------------------
     expect_resets = 0
     for li, (lc, lm) in enumerate(zip(case["learns"], r["learn_marks"])):
-        must = lc["reset"] or li == 0
+        must = lc["reset"] or li == 0 or bool(lc.get("rebind"))
         got = lm["ev0"] < len(events) and events[lm["ev0"]]["k"] == "reset"
         expect_resets += int(must)
         if must != got:
@@ -863,6 +869,9 @@ def build_ops(case, r, tags, truth):
         lm = r["learn_marks"][li]
         ev0 = lm["ev0"]
         saw_reset = ev0 < len(events) and events[ev0]["k"] == "reset"
+        if lc.get("rebind"):
+            ops.append({"op": "set_env"})
+            impl.append(("set_env", None))
         ops.append({"op": "learn", "reset": lc["reset"], "obs": tags[ev0] if saw_reset else []})
         # the carried state right after _setup_learn is observed through the first rollout's first row; the
         # implementation-side answer is built from the recorder: state = last event before the first rollout
@@ -955,6 +964,8 @@ def compare(ctx, case, impl, mouts):
             if mo != im:
                 rep.disagree("config", case, im, mo)
                 return False
+        elif stream == "set_env":
+            continue
         elif stream == "learn":
             if im is not None and (mo["last_obs"] != im["last_obs"] or mo["starts"] != im["starts"]):
                 rep.disagree("learn", case, im, mo)
@@ -1046,6 +1057,8 @@ def check_cases(ctx, cases):
         if r is not None and r.get("fe_distinct") is False:
             rep.count("separate_extractors_not_distinct")
         rep.count("learn_calls=%d" % len(case["learns"]))
+        if any(lc.get("rebind") for lc in case["learns"]):
+            rep.count("set_env_before_continuing_learn")
         if r is None:
             rep.case(case, None)
             continue
